@@ -589,7 +589,8 @@ func init() {
 							op = map[token.Token]token.Token{token.LSS: token.GEQ, token.NEQ: token.EQL, token.EQL: token.NEQ, token.GEQ: token.LSS, token.GTR: token.LEQ, token.LEQ: token.GTR}[op]
 						}
 						switch {
-						case op == token.EQL && m > k, op == token.GEQ && m > k, op == token.GTR && m >= k:
+						case op == token.EQL && m > k, op == token.GEQ && m > k, op == token.GTR && m >= k, op == token.NEQ && m == 0 && k == 0:
+							// len(x) != 0 bounds index 0 (a length is never negative)
 							return true, "dominated by a length test"
 						}
 					}
